@@ -61,6 +61,15 @@ def D(rank=None, **kw):
 ONE = D()
 
 
+class Arr(Deg):
+    """a Deg that also knows the (abstract) extent of each axis: dims = tuple of Deg"""
+    __slots__ = ("dims",)
+
+    def __init__(self, sup, dims, tag=None):
+        super().__init__(sup, len(dims), tag)
+        self.dims = tuple(dims)
+
+
 class Any_(V):
     rank = None
 
@@ -220,6 +229,7 @@ class Ctx:
         self.fn_probe_names = set()
         self.used = set()     # transfer entries exercised (trusted base)
         self.traversed = set()
+        self.overrides = {}
         self.steps = 0
 
     def where(self):
@@ -338,6 +348,9 @@ def join(a, b):
         if a.sup == b.sup:
             if isinstance(a, IdxV) and isinstance(b, IdxV):
                 return IdxV(min(a.lo, b.lo))
+            if isinstance(a, Arr) and isinstance(b, Arr) and len(a.dims) == len(b.dims) and \
+                    all(getattr(x, "sup", None) == getattr(y, "sup", 0) for x, y in zip(a.dims, b.dims)):
+                return Arr(a.sup, a.dims, a.tag if a.tag == b.tag else None)
             return Deg(a.sup, a.rank if a.rank == b.rank else None, a.tag if a.tag == b.tag else None)
         s = a.sup | b.sup
         return Deg(s, a.rank if a.rank == b.rank else None) if len(s) <= MAXSUP else Top("support too large")
@@ -963,8 +976,9 @@ def t_isinstance(args, kw, node):
 class ShapeV(V):
     """the .shape of an array of known rank"""
 
-    def __init__(self, rank):
+    def __init__(self, rank, dims=None):
         self.rank = rank
+        self.dims = dims
 
     def __repr__(self):
         return f"Shape(r{self.rank})"
@@ -1075,6 +1089,9 @@ class Interp:
 
     def call(self, fn, args=(), kw=None):
         return call_fn(fn, list(args), dict(kw or {}), None)
+
+    def construct(self, clsqual, args=(), kw=None):
+        return instantiate(self.prog.cls(clsqual), list(args), dict(kw or {}), None)
 
     @property
     def events(self):
@@ -1548,6 +1565,8 @@ def subscript(base, idx, node):
     if isinstance(base, ShapeV):
         if idx is SLICE or idx == SLICE:
             return base
+        if base.dims is not None and isinstance(idx, Cst) and isinstance(idx.v, int) and -len(base.dims) <= idx.v < len(base.dims):
+            return base.dims[idx.v]
         return Deg({()}, 0)
     if isinstance(base, Tup):
         if isinstance(idx, Cst) and isinstance(idx.v, int):
@@ -1668,7 +1687,18 @@ def ev(e, fr):
     if isinstance(e, (ast.ListComp, ast.GeneratorExp, ast.SetComp)):
         return comp(e, fr)
     if isinstance(e, ast.DictComp):
-        return Dct({})
+        gen = e.generators[0]
+        it = ev(gen.iter, fr)
+        saved = copy_env(fr.env)
+        items = list(it.items) + ([it.tail] if isinstance(it, Lst) and it.tail is not None else []) if isinstance(it, (Lst, Tup)) else [elem(it)]
+        d = {}
+        for i, v in enumerate(items):
+            assign(gen.target, v, fr, e)
+            k = ev(e.key, fr)
+            val = ev(e.value, fr)
+            d[k.v if isinstance(k, Cst) else f"?{i}"] = val
+        fr.env = saved
+        return Dct(d)
     if isinstance(e, ast.IfExp):
         t = truth(ev(e.test, fr))
         if t is True:
@@ -1835,7 +1865,7 @@ def attr(o, name, node, fr):
         if name in ("real", "imag"):
             return b
         if name == "shape":
-            return ShapeV(getattr(b, "rank", None))
+            return ShapeV(getattr(b, "rank", None), getattr(b, "dims", None))
         if name == "ndim":
             rk = getattr(b, "rank", None)
             return Cst(rk) if rk is not None else Deg({()}, 0)
@@ -1989,6 +2019,9 @@ def arrmethod(b, name, args, kw, node):
 
 def call_ext(n, args, kw, e, fr):
     key = None
+    if n in CTX.overrides:
+        CTX.used.add(n + " (property-specific model)")
+        return CTX.overrides[n](args, kw, e)
     if n.startswith("numpy."):
         key = n.split(".", 1)[1]
         if n in CTX.probe_names:
